@@ -66,7 +66,12 @@ def _kind_of(section: str) -> str:
     return "sync" if section == "SyncTrack" else "events" if section == "Events" else "instrument"
 
 
-garbage_line = st.one_of(st.sampled_from(FIXED_GARBAGE), st.sampled_from(FIXED_GARBAGE), soup)
+# unsupported indices of every size (Moonscraper writes drum pad modifiers N 32..68, S 64 fills, ...)
+index_garbage = st.one_of(
+    st.builds(lambda t, k, n: f"  {t} = N {k} {n}", st.integers(0, 5000), st.integers(8, 99), st.integers(0, 99)),
+    st.builds(lambda t, k, n: f"  {t} = S {k} {n}", st.integers(0, 5000),
+              st.integers(0, 99).filter(lambda k: k != 2), st.integers(0, 99)))
+garbage_line = st.one_of(st.sampled_from(FIXED_GARBAGE), st.sampled_from(FIXED_GARBAGE), soup, index_garbage)
 
 
 @st.composite
